@@ -397,8 +397,8 @@ def _argmin(x, dim=None, keepdim=False):
     return _arg_red(x, dim, keepdim, argmin_1d)
 
 
-@reg(aten.max.dim)
-def _maxdim(x, dim, keepdim=False):
+def _minmax_dim(x, dim, keepdim, better):
+    """values by an If-chain (no forking); the index is a z3 Int term (first occurrence), concretised only if it is used"""
     X = to_arr(x)
     dim = dim % X.ndim
     Xm = np.moveaxis(X, dim, -1)
@@ -406,31 +406,27 @@ def _maxdim(x, dim, keepdim=False):
     idxs = np.empty(Xm.shape[:-1], dtype=object)
     for idx in np.ndindex(*vals.shape):
         row = list(Xm[idx])
-        k = argmax_1d(row)
-        vals[idx] = row[k]
-        idxs[idx] = k
+        best, bi = row[0], 0
+        for i in range(1, len(row)):
+            c = better(row[i], best)
+            best = e_where(c, row[i], best)
+            bi = e_where(c, i, bi)
+        vals[idx] = best
+        idxs[idx] = bi
     if keepdim:
         vals = np.expand_dims(vals, dim)
         idxs = np.expand_dims(idxs, dim)
     return SymTensor.from_array(vals, x.dtype), SymTensor.from_array(idxs, torch.int64)
+
+
+@reg(aten.max.dim)
+def _maxdim(x, dim, keepdim=False):
+    return _minmax_dim(x, dim, keepdim, e_gt)
 
 
 @reg(aten.min.dim)
 def _mindim(x, dim, keepdim=False):
-    X = to_arr(x)
-    dim = dim % X.ndim
-    Xm = np.moveaxis(X, dim, -1)
-    vals = np.empty(Xm.shape[:-1], dtype=object)
-    idxs = np.empty(Xm.shape[:-1], dtype=object)
-    for idx in np.ndindex(*vals.shape):
-        row = list(Xm[idx])
-        k = argmin_1d(row)
-        vals[idx] = row[k]
-        idxs[idx] = k
-    if keepdim:
-        vals = np.expand_dims(vals, dim)
-        idxs = np.expand_dims(idxs, dim)
-    return SymTensor.from_array(vals, x.dtype), SymTensor.from_array(idxs, torch.int64)
+    return _minmax_dim(x, dim, keepdim, e_lt)
 
 
 @reg(aten.sort.default, aten.sort.stable)
